@@ -149,17 +149,22 @@ def monitor(ck, sc, r):
                 if t is None:
                     viol("a member joined a generation without finishing on_partitions_revoked",
                          {"generation": e["gen"], "member": c})
+    # a revoke callback that began after the JoinGroup barrier of generation G completed belongs to the next
+    # rebalance (a member may already revoke for G+1 while another member's SyncGroup reply for G is late)
     open_rev = {}
+    t_join = {}
     for e in r["trace"]:
         if e["ev"] == "cb_revoked_begin":
             open_rev[e["c"]] = e["t"]
         elif e["ev"] == "cb_revoked_end":
             open_rev.pop(e["c"], None)
+        elif e["ev"] == "join_complete":
+            t_join[e["generation"]] = e["t"]
         elif e["ev"] == "cb_assigned_begin":
             h = hist.get(e["gen"])
             members = [mc.get(m) for m in (h["members"] if h else [])]
             for c in members:
-                if c in open_rev:
+                if c in open_rev and open_rev[c] < t_join.get(e["gen"], float("inf")):
                     viol("on_partitions_assigned started while another member of the generation was still "
                          "inside on_partitions_revoked", {"generation": e["gen"], "revoking": c, "assigned": e["c"]})
     # silence
